@@ -299,7 +299,11 @@ func runC16(c C16Case, o *run.Obs) error {
 			// an open that is refused (reversed key order) still reads at most the top node
 			w2 := *w
 			def := mast.DefaultKeyCompare(json.Marshal)
-			w2.KeyCompare = func(a, b interface{}) (int, error) { r, e := def(a, b); return -r, e }
+			sign := -1
+			if c.Cfg.Cmp == "reversed" {
+				sign = 1 // the tree was written in the reversed order: the default order is the wrong one for it
+			}
+			w2.KeyCompare = func(a, b interface{}) (int, error) { r, e := def(a, b); return sign * r, e }
 			err = count("LoadMast with a reversed KeyCompare (refused or not)", 1, func() error { w2.Load(sr, nil, nil, false); return nil })
 		case "cursor":
 			err = count("Cursor", 1, func() error { _, e := lt.M.Cursor(core.Ctx); return e })
